@@ -200,18 +200,33 @@ SortedKeys(t) == LET leaves == Keys(t, FALSE) IN leaves \cup UNION {Prefixes(q) 
 DepthSorted(ks) == \A i, j \in 1..Len(ks) : i < j => Len(ks[i]) >= Len(ks[j])
 
 \* as_dict:215-226.  A node is converted when everything above it was: namespaces become dicts; a
-\* non-empty dict (list) whose values are all namespaces has them converted too; anything else is kept.
+\* non-empty dict whose values are all namespaces has them converted too; the namespaces inside a list are converted
+\* element by element (:223-224 as repaired: the pinned tree converted a list only when ALL its elements were namespaces,
+\* so as_dict(dict_to_namespace({'s': [{'k': 1}, 'x']})) still held a Namespace -- finding C11 as_dict:mixed-list, fixed);
+\* anything else is kept.
 AllNS(t, pa) == Children(t, pa) # {} /\ \A c \in Children(t, pa) : t[c] = "ns"
 RECURSIVE Conv(_, _)
 Conv(t, q) == IF Len(q) = 1 THEN TRUE
               ELSE LET pa == Parent(q) IN Conv(t, pa) /\ (t[pa] = "ns" \/ (t[pa] = "dict" /\ AllNS(t, pa)))
-AsDictLeaf(c) == IF c = "LN" THEN "LD" ELSE c       \* [Namespace(a=1)] -> [{'a': 1}]; mixed lists are kept
+AsDictLeaf(c) == IF c = "LN" THEN "LD" ELSE IF c = "LM" THEN "LMd" ELSE c     \* [Namespace(a=1)] -> [{'a': 1}], [Namespace(a=1), 1] -> [{'a': 1}, 1]
 AsDict(t) == [q \in DOMAIN t |-> IF Conv(t, q) THEN (IF t[q] = "ns" THEN "dict" ELSE AsDictLeaf(t[q])) ELSE t[q]]
 
 \* dict_to_namespace(as_dict()): every dict with string keys becomes a namespace, at any depth below namespaces
 \* (expand_dict:339-347 recurses through dict values and lists only)
 RECURSIVE D2NConv(_, _)
 D2NConv(t, q) == IF Len(q) = 1 THEN TRUE ELSE LET pa == Parent(q) IN D2NConv(t, pa) /\ t[pa] = "dict"
-D2NLeaf(c) == IF c = "LD" THEN "LN" ELSE c
+D2NLeaf(c) == IF c = "LD" THEN "LN" ELSE IF c = "LMd" THEN "LM" ELSE c        \* expand_dict:343-346 converts the dicts of a list element by element
 DictToNamespace(t) == [q \in DOMAIN t |-> IF D2NConv(t, q) THEN (IF t[q] = "dict" THEN "ns" ELSE D2NLeaf(t[q])) ELSE t[q]]
+
+\* Ref-level laws of the two conversions (the property: "conversion from and to dictionaries agree with that dictionary").
+\* A plain dictionary holds no Namespace: no "ns" node and no list leaf with a Namespace inside (tuples are not descended
+\* by either conversion and are left out of the law).
+HoldsNS(c) == c \in {"LN", "LM"}
+Plain(d)   == \A q \in DOMAIN d : d[q] # "ns" /\ ~HoldsNS(d[q])
+NoDictLeft(n) == \A q \in DOMAIN n : RefAddr(n, q) => (n[q] # "dict" /\ n[q] \notin {"LD", "LMd"})
+\* as_dict never leaves a Namespace behind (below converted nodes)
+AsDictPlain(t) == \A q \in DOMAIN t : Conv(t, q) => (AsDict(t)[q] # "ns" /\ ~HoldsNS(AsDict(t)[q]))
+\* from a dictionary and back: the same dictionary; and the namespace built from it has namespaces wherever the
+\* dictionary had str-keyed dicts (reachable through dicts and lists)
+RoundTripFromDict(d) == Plain(d) => (AsDict(DictToNamespace(d)) = d /\ NoDictLeft(DictToNamespace(d)))
 =============================================================================
